@@ -99,7 +99,10 @@ func (b *assignmentBuilder) structToStruct(lhsStruct, rhsStruct bmodel.Node, add
 
 		var a gmodel.Assignment
 		a, err = b.matchStructFieldAndStruct(lhsField, rhsStruct, additionalArgs)
-		if err == nil && a != nil {
+		if err != nil {
+			return true
+		}
+		if a != nil {
 			assignments = append(assignments, a)
 		}
 		return
